@@ -206,12 +206,29 @@ for _n in ("exp", "ln", "sin", "cos", "tan", "cosh", "sinh", "tanh", "acos", "as
     UF_FLOAT["uf_im_" + _n] = (lambda f: lambda a, b: f(complex(a, b)).imag)(_f)
 
 
-def complete_env(env: dict, roots, exact=True):
+def complete_env(env: dict, roots, exact=True, fill=None):
     """Fill derived variables (radicals, quotient variables, named constants)
     from base variables.  Returns env or None if outside the domain."""
     env = dict(env)
     env.setdefault("const!two_over_sqrt_pi", 2 / math.sqrt(math.pi))
     need = [n for n, _ in tm.variables(roots)]
+    # derived symbols may be defined through further derived symbols: close the set
+    frontier = list(need)
+    while frontier:
+        defs = []
+        for n in frontier:
+            if n.startswith("rad!") and n in ST.rad_by_name:
+                defs.append(ST.rad_by_name[n][1])
+            elif n.startswith("q!"):
+                for key, q in ST.quot.items():
+                    if q.args[0] == n:
+                        defs += [t for t in tm._TABLE.values() if t.id == key[0]][:1] + [ring.den_term(dict(key[1]))]
+        frontier = [n for n, _ in tm.variables(defs) if n not in need] if defs else []
+        need += frontier
+    if fill is not None:
+        for n in need:
+            if n not in env and not n.startswith(("rad!", "q!", "const!")):
+                env[n] = fill(n)
     # iterate: radicals / quotients may depend on each other (acyclic)
     pending = [n for n in need if n not in env or env[n] is None]
     for _ in range(len(pending) + 2):
